@@ -1,9 +1,16 @@
+pub mod c01;
+pub mod c02;
+pub mod c03;
 pub mod c08;
+pub mod common;
 pub mod replay;
 
 pub fn run(p: &str, thorough: bool, rest: &[String]) {
     let _ = rest;
     match p {
+        "C01" => c01::run(thorough),
+        "C02" => c02::run(thorough),
+        "C03" => c03::run(thorough),
         "C08" => c08::run(thorough),
         _ => {
             eprintln!("unknown property {}", p);
